@@ -68,7 +68,7 @@ func c01Case(tier string, i int, r *gen.Rand) (s Setting, d gen.Data, ops []gen.
 	case i < l.core:
 		s = accelSettings[i%8]
 		size := gen.BoundarySizes[(i/8)%len(gen.BoundarySizes)]
-		fam := []string{"text", "uniform", "alpha4", "runs", "farcopy", "equal", "fib", "mixed"}[(i/8+i)%8]
+		fam := []string{"text", "uniform", "alpha4", "runs", "farcopy", "equal", "fibexact", "mixed"}[(i/8+i)%8]
 		d = gen.Make(r, fam, size)
 		style := gen.PartitionStyles[r.Intn(4)]
 		if size <= 20000 && r.Chance(1, 6) {
